@@ -602,6 +602,7 @@ pub fn gen_faults(rng: &mut Rng, enabled: bool) -> Faults {
         spurious_park_permille: pick(rng, 350, &[30, 100, 250]),
         self_wake_permille: pick(rng, 300, &[100, 300, 600]),
         dup_wake_permille: pick(rng, 300, &[100, 300, 600]),
+        keep_waker_permille: pick(rng, 300, &[300, 1000]),
     }
 }
 
